@@ -148,7 +148,7 @@ def gen_solve(d: Draw, planet_id, sol_id, spec):
                      (['tidal', 'loading', 'free'], 1)])
     if sf is not None:
         o['solve_for'] = sf
-    fault = d.weighted([('none', 8), ('solve_for_unknown', 2), ('solve_for_many', 1), ('solve_for_list', 1), ('mangle', 3),
+    fault = d.weighted([('none', 8), ('solve_for_unknown', 2), ('solve_for_many', 1), ('solve_for_list', 1), ('solve_for_odd', 1), ('mangle', 3),
                         ('degree', 1), ('frequency', 1), ('steps', 4), ('ram', 1), ('tolerance', 2), ('integrator', 1),
                         ('max_step', 1)])
     op = {'op': 'solve', 'planet': planet_id, 'sol': sol_id, 'options': o, 'fault': fault}
@@ -158,6 +158,9 @@ def gen_solve(d: Draw, planet_id, sol_id, spec):
         o['solve_for'] = base
     elif fault == 'solve_for_many':
         o['solve_for'] = ['tidal', 'loading', 'free', 'tidal', 'loading', 'free'][:d.between(6, 6)]
+    elif fault == 'solve_for_odd':
+        o['solve_for'] = d.pick([['tidal', 'tidal'], ['free', 'loading', 'free'], [], ['tidal', 'loading', 'free', 'tidal'],
+                                 ['loading', 'tidal', 'free', 'loading', 'tidal']])
     elif fault == 'solve_for_list':
         o['solve_for'] = list(sf or ['tidal'])
         o['solve_for_as_list'] = True
